@@ -160,6 +160,13 @@ theorem fmtValue_numeric (name : String) (id ent len n : Nat) :
 
 /-! ## The model's own trace satisfies the Spec predicate -/
 
+/-- "arrival order" in the model is the order of the `addIPFIXMessage` calls. In the program those calls come from ONE
+    place, the message case of `signalHandler`'s loop, as a plain (synchronous) call: the loop takes the next message off
+    the channel only when the previous one has been stored. A `go addIPFIXMessage(msg)` there would store messages in
+    completion order - nothing a harness that calls `addIPFIXMessage` itself can see. -/
+theorem tie_store_fed_in_arrival_order :
+    Generated.storeFeed = [("signalHandler", "call", "addIPFIXMessage")] := by decide
+
 /-- the compiled checker evaluates `missingField` in one pass over the entry (`missingFieldFast`: each demanded
     line is looked up behind the previous one; only if that fails does the specification's own search decide).
     The two are EQUAL - this equation is what `@[csimp]` hands to the compiler (Spec/C20), restated here
